@@ -3,7 +3,8 @@
 M : spec/MC_C19.cfg - every pair / triple of component signatures (and every ElementVector) on two-cell line /
     triangle / tetrahedron meshes: transcriptions of _deduce_bfun, Dofs numbering, split_indices against
     DecodeIsBijection / SplitPartitions / CellTableMatchesComponents; COOData universes (toarray, dot, tolocal,
-    fromlocal, inverse, +); bmat block offsets (MC_C19_bmat.cfg, known deviation).
+    fromlocal, inverse, +); bmat block offsets for 1..5 block columns.  MC_C19_bmat_old.cfg: the accumulation of
+    utils.bmat before the repair 3bbf4b4 is a regression model that TLC must refute (sensitivity check).
 V : real ElementVector / ElementComposite / CompositeBasis / split_indices / split_bases / interpolate,
     coupled assembly against separately assembled blocks and Form.block, asm over lists of bases, the COOData
     algebra and bmat on exact-universe bases; TraceC19 (Blocks.tla) decides exactly.
@@ -1054,14 +1055,17 @@ def generate(ctx):
 def model(ctx):
     thorough = ctx.tier == 'thorough'
     ctx.model_must_hold('MC_C19', 'MC_C19.cfg', env={'MC_TIER': ctx.tier, 'MC_PART': 'main', 'MC_MUT': 'none'},
-                        timeout=3000 if thorough else 600, workers=8)
-    # utils.bmat block offsets: explored separately; the transcription of today's code is known to deviate
-    ctx.model_must_hold('MC_C19', 'MC_C19_bmat.cfg', env={'MC_TIER': ctx.tier, 'MC_PART': 'bmat', 'MC_MUT': 'none'},
-                        timeout=600, workers=2)
+                        timeout=3000 if thorough else 600, workers=8, xmx='6g')
+    # regression model: the block-offset accumulation of utils.bmat before the repair must be refuted by TLC
+    old = ctx.tlc_model('MC_C19', 'MC_C19_bmat_old.cfg', env={'MC_TIER': ctx.tier, 'MC_PART': 'bmat_old', 'MC_MUT': 'none'},
+                        timeout=600, workers=2, xmx='6g', label='regression model: pre-fix bmat block offsets (violation expected)')
+    ctx.notes['old_bmat_offsets_refuted_by_tlc'] = bool(old['violated'])
+    if not old['violated']:
+        raise MachineryError('the pre-repair bmat block offsets were not refuted by TLC (MC_C19_bmat_old.cfg)')
     rejected = {}
     for mut in ('vecswap', 'addfirst'):
         r = ctx.tlc_model('MC_C19', 'MC_C19.cfg', env={'MC_TIER': 'quick', 'MC_PART': 'main', 'MC_MUT': mut}, timeout=600,
-                          workers=4, label=f'seeded model deviation {mut} (violation expected)')
+                          workers=4, xmx='6g', label=f'seeded model deviation {mut} (violation expected)')
         rejected[mut] = bool(r['violated'])
     ctx.notes['model_deviations_rejected'] = rejected
 
@@ -1084,7 +1088,7 @@ def run(ctx):
     if 'exc' in box:
         raise box['exc']
     ctx.notes['skipped_outside_exact_universe'] = sum(1 for s in scs if not s['events'])
-    ctx.validate('TraceC19', scs)
+    ctx.validate('TraceC19', scs, jvms=8)
     keys = {json.dumps([s['tags'], s['recipe'].get('F'), s['recipe'].get('bil'), s['recipe'].get('data'),
                         s['recipe'].get('cw')], sort_keys=True) for s in scs if s['events']}
     ctx.notes['distinct_nontrivial'] = len(keys)
@@ -1102,10 +1106,9 @@ def run(ctx):
 def replay(ctx, doc):
     sc = doc['scenario']
     if sc.get('recipe', {}).get('driver') == 'model':
-        cfg = sc['recipe']['cfg']
-        part = 'bmat' if 'bmat' in cfg else 'main'
-        ctx.model_must_hold('MC_C19', cfg, env={'MC_TIER': ctx.tier, 'MC_PART': part, 'MC_MUT': 'none'}, timeout=900, workers=4)
+        ctx.model_must_hold('MC_C19', 'MC_C19.cfg', env={'MC_TIER': ctx.tier, 'MC_PART': 'main', 'MC_MUT': 'none'}, timeout=900,
+                            workers=4, xmx='6g')
         return ctx.finish(rule=RULE)
     sc2 = scenario(sc['id'], sc['recipe'], sc.get('tags', {}))
-    ctx.validate('TraceC19', [sc2])
+    ctx.validate('TraceC19', [sc2], jvms=8)
     return ctx.finish(rule=RULE)
